@@ -70,6 +70,8 @@ Half(D, mode, pre, R, X, T, bogus, flag, err, g, e, dup, ret, bad) ==
        <<~flag /\ e \cap dbg # {}, "C13.off-ran">>,
        <<err = 0 /\ flag /\ ~must /\ mode # 1 /\ ~((S \cap dbg) \ pre \subseteq e), "C13.on-missing">>,
        <<err = 0 /\ flag /\ ~(\A x \in (e \cap dbg) \ S : D.deps[x] \subseteq e \cup pre), "C13.pulled-input">>,
+       \* C03: such a node is outside the selection AND not a debug node the run may take along: it must not be entered
+       <<err = 0 /\ flag /\ ~(\A x \in (e \cap dbg) \ S : D.deps[x] \subseteq e \cup pre), "C03.entered-outside-selection">>,
        <<err = 0 /\ flag /\ ~must /\ mode = 0 /\ ~(MustPull(D, S) \subseteq e), "C03.runnable-debug-node-left-out">>,
        <<err = 0 /\ mode # 1 /\ ret # (e \cup (pre \cap Nodes(D))), "C12.ret">>,
        <<err = 0 /\ bad # {}, "C12.retval">>})
